@@ -3,6 +3,8 @@
      C <a|t|s> <base> <group> <bits|-> <spans|.> <files> <hex of text|->    extracted CHECKER on a text -> 1 | 0
      Y <d|m> <symbols|.>                                                    symbol formatter model      -> T <hex|->
      K <d|m> <symbols|.> <hex of text|->                                    symbol checker on a text    -> 1 | 0
+     A <banks> <spans|.>                                                    addresses assigned by the layout -> 1 | 0
+                     banks: index:[-]addr_start-hex:unit:outp|-:size|-  joined by ','
      E <symbols|.>                                                          expected symbols (spec)     -> E name=[-]hex,...
    spans    off|-:size:[-]addrhex:filehandle:start|-:end|-   joined by ','
    files    handle:name-hex:contents-hex   joined by ','   (handles 0..n-1)
@@ -89,6 +91,11 @@ let () = iter_lines (fun line ->
   | ["K"; mode; sy; t] ->
     let g = parse_syms sy and text = text_of_hex' t in
     print_endline (if (if mode = "d" then symbols_ok_default g text else symbols_ok_mesen g text) then "1" else "0")
+  | ["A"; bk; sp] ->
+    let banks = List.map (fun e -> match String.split_on_char ':' e with
+      | [i; a; u; o; z] -> { bw_index = num i; bw_addr = z_of_hex a; bw_unit = num u; bw_outp = opt_n o; bw_size = opt_n z }
+      | _ -> failwith "bank") (split ',' bk) in
+    print_endline (if addresses_ok banks (parse_spans sp) then "1" else "0")
   | ["E"; sy] ->
     let g = parse_syms sy in
     print_endline ("E " ^ String.concat "," (List.map (fun r ->
